@@ -38,7 +38,7 @@ ALL = {
  'C24': (E2, T_E2, 'All 32 well-formed flag tables x all argument lists of <=4/5 tokens through ParseFlags against a reference parser, and through the args builtin.', 'ill-formed lists only get the no-panic clause'),
  'C25': (E3, T_E3, 'All programs of config set/get/default operations over a global and a non-global option at call depths <=2; every get compared with a scope model.', 'two values per option'),
  'C26': (E1, T_E1, 'Every operation sequence of length <=3/4 over create/close/delete/get/dump on 2 names, and every pair of <=2-operation sequences from two threads, interleaved in all ways (<=2 preemptions) with the asynchronous close timers; no panic, no deadlock, results explained by a linearizable registry model.', 'grace period and retry sleeps modelled as yields, not durations'),
- 'C27': (E3, T_E3, 'BFS to a fixpoint over add/terminate/garbage-collect/lookup histories on the real job table with <=4/6 jobs; every lookup compared with the model of the statement.', 'synthetic Process values'),
+ 'C27': (E3, T_E3 + '; plus stateless DFS over interleavings of concurrent table operations under the controlled scheduler', 'BFS to a fixpoint over add/terminate/garbage-collect/lookup histories on the real job table with <=10/12 jobs, every lookup compared with the model of the statement; plus all interleavings (<=2 preemptions) of two scopes running add / garbage-collect / finish-then-collect on the real table: at quiescence jobs lists exactly the running jobs under their original ids.', 'synthetic Process values; concurrent part: two scopes, <=2 operations each'),
  'C28': (E1, T_E1, 'Two session threads run one program each through the whole interpreter; all schedules within the deviation bound; a monitor at every scheduling point checks FID uniqueness, and at quiescence the FID table must be back to its baseline.', 'preemptions only at shared-visible operations; bound 1 quick / 2 thorough'),
  'C29': (E4, T_E4, 'All histories of <=2x2 / 3x3 commands over a block alphabet (multi-line, unicode, 70 KiB, 200 KiB); the file is truncated at EVERY byte of the last write (sampled offsets for the long entries), further sessions append, reload must give every acknowledged entry except possibly the torn one.', 'crash model = torn single append (prefix); murex never fsyncs so power-loss models are out of scope'),
  'C30': (E3, T_E3, 'BFS over write/read/trim/clear histories on namespaces x keys x values x TTL classes of the real cache (memory + sqlite); every read compared with the model.', 'real clock: TTLs kept >=30 min from now, expiry during a history is outside the bound'),
